@@ -502,8 +502,8 @@ def rule_D19(body):
         open_i = mm.end() - 1
         close_i = match_close(m, open_i)            # index just after the closing bracket
         inner = body[open_i + 1:close_i - 1]
-        if re.search(r"#\s*\(", inner):
-            raise LostAnchor("rule D19: quote! template with a repetition `#( .. )*`")
+        if re.search(r"#\s*\(", inner) and not re.fullmatch(r"\s*#\(\s*#[A-Za-z_][A-Za-z0-9_]*\s*\)\*\s*", inner):
+            raise LostAnchor("rule D19: quote! template with a repetition other than the whole template `#(#x)*`")
         args = re.findall(r"#([A-Za-z_][A-Za-z0-9_]*)", inner)
         tpl = _norm_tokens(inner)
         new = f"quote{len(args)}({_rust_str(tpl)}" + "".join(f", &{a}" for a in args) + ")"
@@ -545,6 +545,36 @@ def rule_D20(body):
     if not applied:
         raise LostAnchor("rule D20: no format! found")
     return body, applied
+
+
+def rule_D21(body):
+    """D21: `RECV.iter().enumerate().map(|(i, x)| { BODY }).collect::<Result<Vec<_>, _>>()?` is written as
+    `({ let mut collected = Vec::new(); let mut i: usize = 0; for x in RECV.iter() { collected.push(({ BODY })?); i = i + 1; } collected })` —
+    Enumerate is a counter from 0, Map applies the closure in order, and collecting into `Result<Vec<_>, _>` stops at the first `Err`
+    (the closure is not called again) which the trailing `?` returns: the loop evaluates BODY for the same items in the same order and
+    returns the same first error.  RECV a plain path; BODY a block without return/break/continue/? and without assignment to the
+    counter; exactly one occurrence.  With ghost scaffolding as in D15s (iterator `it_collect`, anchors /*INV:collect*/ /*STEP:collect*/)."""
+    m = mask(body)
+    hits = list(re.finditer(r"([A-Za-z_][A-Za-z0-9_]*(?:\s*\.\s*[A-Za-z_0-9]+)*)\s*\.iter\(\)\s*\.enumerate\(\)\s*\.map\(\s*\|\s*\(\s*([A-Za-z_][A-Za-z0-9_]*)\s*,\s*([A-Za-z_][A-Za-z0-9_]*)\s*\)\s*\|\s*\{", m))
+    if len(hits) != 1:
+        raise LostAnchor(f"rule D21: `.iter().enumerate().map(|(i, x)| {{` matched {len(hits)} times")
+    mm = hits[0]
+    open_brace = mm.end() - 1
+    close_brace = match_close(m, open_brace)
+    tail = re.match(r"\s*\)\s*\.collect::<Result<Vec<_>,\s*_>>\(\)\s*\?", m[close_brace:])
+    if not tail:
+        raise LostAnchor("rule D21: the closure is not directly followed by `).collect::<Result<Vec<_>, _>>()?`")
+    blk = m[open_brace:close_brace]
+    recv, idx, var = re.sub(r"\s+", "", mm.group(1)), mm.group(2), mm.group(3)
+    if re.search(r"\breturn\b|\bbreak\b|\bcontinue\b|\?", blk) or re.search(r"\b" + idx + r"\s*(\+|-|\*)?=[^=]", blk):
+        raise LostAnchor("rule D21: closure contains return/break/continue/? or assigns the counter")
+    if re.search(r"\bcollected\b", m):
+        raise LostAnchor("rule D21: the name `collected` is already in use")
+    new = (f"({{ let mut collected = Vec::new(); let mut {idx}: usize = 0; let ghost seq_collect = {recv}@; for {var} in it_collect: {recv}.iter() invariant it_collect.seq().len() == seq_collect.len(), "
+           f"forall|i_: int| 0 <= i_ < it_collect.seq().len() ==> *(#[trigger] it_collect.seq()[i_]) == seq_collect[i_], {idx} == it_collect.index@, /*INV:collect*/ "
+           f"{{ /*STEP:collect*/ collected.push((" + body[open_brace:close_brace] + f")?); {idx} = {idx} + 1; }} collected }})")
+    end = close_brace + tail.end()
+    return body[:mm.start()] + new + body[end:], [("D21", re.sub(r"\s+", " ", body[mm.start():open_brace + 1])[:140] + " .. }).collect::<Result<Vec<_>, _>>()?", "{ let mut collected = Vec::new(); let mut i: usize = 0; for x in RECV.iter() { collected.push(({ .. })?); i = i + 1; } collected }")]
 
 
 def rule_D5b(body):
@@ -614,7 +644,7 @@ def rule_D4t(body):
     return pat.sub("range_from_element(", body), [("D4", "<Option<&SubtypeElements> as TryInto<PerVisibleRangeConstraints>>::try_into(", "range_from_element(")] * n
 
 
-RULES = {"D2": rule_D2, "D5": rule_D5, "D5c": rule_D5c, "D5m": rule_D5m, "D9": rule_D9, "D4t": rule_D4t, "D10": rule_D10, "D5b": rule_D5b, "D12": rule_D12, "D13": rule_D13, "D14": rule_D14, "D15": rule_D15, "D15s": rule_D15s, "D12s": rule_D12s, "D12m": rule_D12m, "D17": rule_D17, "D18": rule_D18, "D19": rule_D19, "D20": rule_D20}
+RULES = {"D2": rule_D2, "D5": rule_D5, "D5c": rule_D5c, "D5m": rule_D5m, "D9": rule_D9, "D4t": rule_D4t, "D10": rule_D10, "D5b": rule_D5b, "D12": rule_D12, "D13": rule_D13, "D14": rule_D14, "D15": rule_D15, "D15s": rule_D15s, "D12s": rule_D12s, "D12m": rule_D12m, "D17": rule_D17, "D18": rule_D18, "D19": rule_D19, "D20": rule_D20, "D21": rule_D21}
 
 
 class FnUnit:
